@@ -6,6 +6,8 @@ From W.model Require Import CrashRepo Crash.
 From W.proofs Require Import CrashRepo_proofs.
 Import ListNotations.
 Local Open Scope N_scope.
+Local Notation length := List.length.
+Local Notation concat := List.concat.
 
 (* ------------------------------------------------------------------ skeleton predicates *)
 
@@ -529,4 +531,251 @@ Section WithSkels.
     Inv s -> op_ok s o -> Inv (crash n (fst (op_writes sk dv sched s o)) s).
   Proof. intros Hi Hok. apply safe_seq_prefix; auto. apply op_safe; auto. Qed.
 
+  (* ---------------------------------------------------------------- re-run: commit-like operations *)
+
+  Lemma ingest_is_obj t hp : Forall is_obj (ingest_writes sk sched t hp).
+  Proof.
+    destruct (ingest_shape t hp) as [pre (E&Hp&_)]. rewrite E.
+    apply Forall_app; split; [|repeat constructor].
+    eapply Forall_impl; [|exact Hp]. intros w; destruct w; cbn; auto.
+  Qed.
+
 End WithSkels.
+
+Lemma Forall_firstn {A} (P : A -> Prop) n l : Forall P l -> Forall P (firstn n l).
+Proof.
+  revert n; induction l as [|x l IH]; intros n H; [rewrite firstn_nil; constructor|].
+  destruct n; cbn; [constructor|]. inversion H; subst. constructor; auto.
+Qed.
+
+Lemma firstn_app_le {A} n (l1 l2 : list A) : (n <= length l1)%nat -> firstn n (l1 ++ l2) = firstn n l1.
+Proof.
+  intros H. rewrite firstn_app. replace (n - length l1)%nat with 0%nat by lia. cbn. apply app_nil_r.
+Qed.
+
+Lemma head_of_refs_eq r a b : refs a = refs b -> head_of r a = head_of r b.
+Proof. unfold head_of, get_ref. intros ->. reflexivity. Qed.
+
+Lemma flag_of_refs_eq r a b : refs a = refs b -> flag_of r a = flag_of r b.
+Proof. unfold flag_of, get_ref. intros ->. reflexivity. Qed.
+
+Lemma find_del_key {V} (r r' : N) (R : list (N * V)) : r' <> r ->
+  find (fun e => N.eqb (fst e) r') (del_key r R) = find (fun e => N.eqb (fst e) r') R.
+Proof.
+  intros Hne. induction R as [|[k v] R IH]; cbn; auto.
+  destruct (N.eqb k r) eqn:E; cbn.
+  - apply N.eqb_eq in E. subst k. destruct (N.eqb r r') eqn:E'; [apply N.eqb_eq in E'; congruence | exact IH].
+  - destruct (N.eqb k r'); auto.
+Qed.
+
+Lemma refs_after_set s r c f : refs (apply (SetRefLog r c f) s) = (r, (c, f)) :: del_key r (refs s).
+Proof. destruct s; reflexivity. Qed.
+
+(** a write list "object writes, then one SetRefLog" *)
+Lemma refs_after_tail objs r c f s : Forall is_obj objs ->
+  refs (apply_all (objs ++ [SetRefLog r c f]) s) = (r, (c, f)) :: del_key r (refs s).
+Proof.
+  intros H. rewrite apply_all_app. cbn. rewrite refs_after_set, apply_all_obj_refs; auto.
+Qed.
+
+Lemma crash_before_tail objs w n s : Forall is_obj objs -> (n < length (objs ++ [w]))%nat ->
+  refs (crash n (objs ++ [w]) s) = refs s /\ Forall is_obj (firstn n (objs ++ [w])) /\
+  firstn n (objs ++ [w]) = firstn n objs.
+Proof.
+  intros H Hn. rewrite app_length in Hn. cbn in Hn.
+  assert (E : firstn n (objs ++ [w]) = firstn n objs) by (apply firstn_app_le; lia).
+  unfold crash. rewrite E. split; [|split; auto]; [apply apply_all_obj_refs|]; apply Forall_firstn; auto.
+Qed.
+
+Lemma obs_eq_same_tail A B R r c1 c2 f1 f2 :
+  refs A = (r, (c1, f1)) :: del_key r R -> refs B = (r, (c2, f2)) :: del_key r R ->
+  shape_of c1 = shape_of c2 -> obs_eq A B.
+Proof.
+  intros EA EB Hs r'. unfold ref_shape, get_ref. rewrite EA, EB. cbn.
+  destruct (N.eqb r r') eqn:E; cbn; [rewrite Hs; reflexivity | reflexivity].
+Qed.
+
+Lemma objs_le_stored s s' c : objs_le s s' -> stored c s = true -> stored c s' = true.
+Proof.
+  intros (M1&_) H. apply (memb_In cid_eqb cid_eqb_eq). apply M1. apply (memb_In cid_eqb cid_eqb_eq); auto.
+Qed.
+Lemma objs_le_table_present s s' t : objs_le s s' -> table_present t s = true -> table_present t s' = true.
+Proof.
+  intros (_&M2&_) H. apply (memb_In table_eqb table_eqb_eq). apply M2. apply (memb_In table_eqb table_eqb_eq); auto.
+Qed.
+Lemma objs_le_others_ok s s' others : objs_le s s' -> others_ok s others = true -> others_ok s' others = true.
+Proof.
+  unfold others_ok. rewrite !forallb_forall. intros Hle H c Hc. specialize (H c Hc).
+  apply andb_true_iff in H. destruct H as [H1 H2]. apply andb_true_iff.
+  split; [eapply objs_le_stored | eapply objs_le_table_present]; eauto.
+Qed.
+
+Section Rerun.
+  Variable sk : skels.
+  Variable dv : deriver.
+  Hypothesis Hok : skels_ok sk = true.
+
+  (* unpack the conjunction once *)
+  Lemma skels_ok_parts :
+    ingest_skel_ok (sk_ingest sk) = true /\ insert_block_skel_ok (sk_insert_block sk) = true /\
+    recv_table_skel_ok (sk_recv_table sk) = true /\ index_table_skel_ok (sk_index_table sk) = true /\
+    recv_commit_skel_ok (sk_recv_commit sk) = true /\ fetch_skel_ok (sk_fetch sk) = true /\
+    prune_skel_ok (sk_prune sk) = true /\ prune_tables_skel_ok (sk_prune_tables sk) = true /\
+    prune_commit_order_ok (sk_prune_commit_order sk) = true /\
+    commit_skel_ok (sk_commit sk) = true /\ commit_with_table_skel_ok (sk_commit_with_table sk) = true /\
+    merge_result_skel_ok (sk_merge_result sk) = true /\ create_merge_skel_ok (sk_create_merge sk) = true.
+  Proof.
+    unfold skels_ok, recv_skel_ok in Hok. repeat (apply andb_true_iff in Hok; destruct Hok as [Hok ?]).
+    repeat split; assumption.
+  Qed.
+
+  Let Hingest := proj1 skels_ok_parts.
+  Let Hblock := proj1 (proj2 skels_ok_parts).
+  Let Hrtable := proj1 (proj2 (proj2 skels_ok_parts)).
+  Let Hindex := proj1 (proj2 (proj2 (proj2 skels_ok_parts))).
+  Let Hrcommit := proj1 (proj2 (proj2 (proj2 (proj2 skels_ok_parts)))).
+  Let Hfetch := proj1 (proj2 (proj2 (proj2 (proj2 (proj2 skels_ok_parts))))).
+  Let Hcommit := proj1 (proj2 (proj2 (proj2 (proj2 (proj2 (proj2 (proj2 (proj2 (proj2 skels_ok_parts))))))))).
+  Let Hcwt := proj1 (proj2 (proj2 (proj2 (proj2 (proj2 (proj2 (proj2 (proj2 (proj2 (proj2 skels_ok_parts)))))))))).
+  Let Hmerge := proj1 (proj2 (proj2 (proj2 (proj2 (proj2 (proj2 (proj2 (proj2 (proj2 (proj2 (proj2 skels_ok_parts))))))))))).
+  Let Hcreate := proj2 (proj2 (proj2 (proj2 (proj2 (proj2 (proj2 (proj2 (proj2 (proj2 (proj2 (proj2 skels_ok_parts))))))))))).
+
+  (** prefix consistency of every non-prune operation, from [skels_ok] *)
+  Theorem nonprune_prefix_consistent sched s o n : valid_sched sched ->
+    Inv s -> op_ok s o -> Inv (crash n (fst (op_writes sk dv sched s o)) s).
+  Proof.
+    intros Hv Hi Ho. apply op_prefix_consistent; auto.
+  Qed.
+
+  Lemma nonprune_final_inv sched s o : valid_sched sched -> Inv s -> op_ok s o -> Inv (run_op sk dv sched s o).
+  Proof.
+    intros Hv Hi Ho. unfold run_op.
+    rewrite <- (crash_all _ s (length (fst (op_writes sk dv sched s o)))); auto.
+    apply nonprune_prefix_consistent; auto.
+  Qed.
+
+  (** the operations whose write list is "object puts, then the branch ref": commit,
+      commitWithTable, merge commit, merge no-ff.  [tail_op o] gives the ref and says the
+      guards hold. *)
+  Definition put_obj (w : write) : Prop := is_put w /\ is_obj w.
+
+  Lemma tail_rerun s r c1 c2 objs1 objs2 n :
+    let ws1 := objs1 ++ [SetRefLog r c1 true] in
+    Forall is_obj objs1 -> (n < length ws1)%nat ->
+    Forall is_obj objs2 -> shape_of c1 = shape_of c2 ->
+    obs_eq (apply_all (objs2 ++ [SetRefLog r c2 true]) (crash n ws1 s)) (apply_all ws1 s).
+  Proof.
+    intros ws1 H1 Hn H2 Hs. destruct (crash_before_tail objs1 (SetRefLog r c1 true) n s H1 Hn) as (Er&_&_).
+    eapply obs_eq_same_tail with (R := refs s); [| |symmetry; exact Hs].
+    - rewrite refs_after_tail; auto. fold ws1. rewrite Er. reflexivity.
+    - apply refs_after_tail; auto.
+  Qed.
+
+  Lemma crash_objs_le objs w n s : Forall is_put objs -> Forall is_obj objs -> (n < length (objs ++ [w]))%nat ->
+    objs_le s (crash n (objs ++ [w]) s).
+  Proof.
+    intros Hp Ho Hn. destruct (crash_before_tail objs w n s Ho Hn) as (_&_&E). unfold crash. rewrite E.
+    apply puts_mono. apply Forall_firstn; auto.
+  Qed.
+
+  (** commit: the re-run (new nonce = new time stamp, any worker interleaving) succeeds, ends
+      in an invariant state and leaves the branch on a commit with the same table and the same
+      history as the uninterrupted run.  The interrupted run's objects (blocks, indices,
+      table, possibly its commit object) stay behind as unreferenced garbage. *)
+  Theorem commit_rerun sched1 sched2 s r t n1 n2 n :
+    valid_sched sched1 -> valid_sched sched2 -> Inv s ->
+    let ws1 := fst (op_writes sk dv sched1 s (OCommit r t n1)) in
+    (n < length ws1)%nat ->
+    let cs := crash n ws1 s in
+    snd (op_writes sk dv sched2 cs (OCommit r t n2)) = true /\
+    Inv (run_op sk dv sched2 cs (OCommit r t n2)) /\
+    obs_eq (run_op sk dv sched2 cs (OCommit r t n2)) (apply_all ws1 s).
+  Proof.
+    intros Hv1 Hv2 Hi ws1 Hn cs. split; [reflexivity|]. split.
+    - apply nonprune_final_inv; auto; [|exact I]. apply nonprune_prefix_consistent; auto. exact I.
+    - unfold run_op, cs, ws1 in *. cbn [op_writes fst] in *.
+      rewrite (commit_writes_eq sk sched1 Hcommit) in *. rewrite (commit_writes_eq sk sched2 Hcommit).
+      set (c1 := Cid t (opt_list (head_of r s)) n1) in *.
+      set (O1 := ingest_writes sk sched1 t true ++ [PutCommit c1]).
+      assert (E1 : ingest_writes sk sched1 t true ++ [PutCommit c1; SetRefLog r c1 true] = O1 ++ [SetRefLog r c1 true])
+        by (unfold O1; rewrite <- app_assoc; reflexivity).
+      rewrite E1 in *.
+      assert (HO1 : Forall is_obj O1).
+      { unfold O1. apply Forall_app; split; [apply ingest_is_obj; auto | repeat constructor]. }
+      destruct (crash_before_tail O1 (SetRefLog r c1 true) n s HO1 Hn) as (Er&_&_).
+      rewrite (head_of_refs_eq r _ s Er).
+      set (c2 := Cid t (opt_list (head_of r s)) n2).
+      replace (ingest_writes sk sched2 t true ++ [PutCommit c2; SetRefLog r c2 true])
+        with ((ingest_writes sk sched2 t true ++ [PutCommit c2]) ++ [SetRefLog r c2 true])
+        by (rewrite <- app_assoc; reflexivity).
+      apply tail_rerun; auto.
+      apply Forall_app; split; [apply ingest_is_obj; auto | repeat constructor].
+  Qed.
+
+  Theorem commit_table_rerun sched s r t n1 n2 n :
+    Inv s -> In t (tables s) ->
+    let ws1 := fst (op_writes sk dv sched s (OCommitTable r t n1)) in
+    (n < length ws1)%nat ->
+    let cs := crash n ws1 s in
+    snd (op_writes sk dv sched cs (OCommitTable r t n2)) = true /\
+    obs_eq (run_op sk dv sched cs (OCommitTable r t n2)) (apply_all ws1 s).
+  Proof.
+    intros Hi Ht ws1 Hn cs. split; [reflexivity|].
+    unfold run_op, cs, ws1 in *. cbn [op_writes fst] in *.
+    rewrite (commit_with_table_writes_eq sk Hcwt) in *. rewrite (commit_with_table_writes_eq sk Hcwt).
+    set (c1 := Cid t (opt_list (head_of r s)) n1) in *.
+    change [PutCommit c1; SetRefLog r c1 true] with ([PutCommit c1] ++ [SetRefLog r c1 true]) in *.
+    assert (HO1 : Forall is_obj [PutCommit c1]) by repeat constructor.
+    destruct (crash_before_tail [PutCommit c1] (SetRefLog r c1 true) n s HO1 Hn) as (Er&_&_).
+    rewrite (head_of_refs_eq r _ s Er).
+    set (c2 := Cid t (opt_list (head_of r s)) n2).
+    change [PutCommit c2; SetRefLog r c2 true] with ([PutCommit c2] ++ [SetRefLog r c2 true]).
+    apply tail_rerun; auto. repeat constructor.
+  Qed.
+
+  (** merge commit *)
+  Theorem merge_commit_rerun sched1 sched2 s r others t n1 n2 n :
+    valid_sched sched1 -> valid_sched sched2 -> Inv s ->
+    snd (op_writes sk dv sched1 s (OMergeCommit r others t n1)) = true ->
+    let ws1 := fst (op_writes sk dv sched1 s (OMergeCommit r others t n1)) in
+    (n < length ws1)%nat ->
+    let cs := crash n ws1 s in
+    snd (op_writes sk dv sched2 cs (OMergeCommit r others t n2)) = true /\
+    Inv (run_op sk dv sched2 cs (OMergeCommit r others t n2)) /\
+    obs_eq (run_op sk dv sched2 cs (OMergeCommit r others t n2)) (apply_all ws1 s).
+  Proof.
+    intros Hv1 Hv2 Hi Hok1 ws1 Hn cs.
+    assert (Hinv_cs : Inv cs) by (apply nonprune_prefix_consistent; auto; exact I).
+    unfold run_op, cs, ws1 in *. cbn [op_writes] in *.
+    destruct (head_of r s) as [h|] eqn:Eh; [|cbn in Hok1; discriminate].
+    destruct (others_ok s others) eqn:Eo; [|cbn in Hok1; discriminate].
+    cbn [fst snd] in *.
+    rewrite (merge_commit_writes_eq sk sched1 Hmerge Hcreate) in *.
+    set (c1 := Cid t (h :: others) n1) in *. cbn [c_table] in *.
+    set (O1 := ingest_writes sk sched1 t false ++ [PutProf t] ++ [PutCommit c1]).
+    assert (E1 : ingest_writes sk sched1 t false ++ [PutProf t] ++ [PutCommit c1; SetRefLog r c1 true]
+                 = O1 ++ [SetRefLog r c1 true]).
+    { unfold O1. rewrite <- !app_assoc. reflexivity. }
+    rewrite E1 in *.
+    assert (HO1 : Forall is_obj O1).
+    { unfold O1. apply Forall_app; split; [apply ingest_is_obj; auto | repeat constructor]. }
+    assert (HP1 : Forall is_put O1).
+    { unfold O1. apply Forall_app; split; [apply ingest_is_put; auto | repeat constructor]. }
+    destruct (crash_before_tail O1 (SetRefLog r c1 true) n s HO1 Hn) as (Er&_&_).
+    pose proof (crash_objs_le O1 (SetRefLog r c1 true) n s HP1 HO1 Hn) as Hle.
+    rewrite (head_of_refs_eq r _ s Er), Eh.
+    rewrite (objs_le_others_ok _ _ _ Hle Eo). cbn [fst snd].
+    split; [reflexivity|]. split.
+    - pose proof (nonprune_final_inv sched2 _ (OMergeCommit r others t n2) Hv2 Hinv_cs I) as F.
+      unfold run_op in F. cbn [op_writes] in F.
+      rewrite (head_of_refs_eq r _ s Er), Eh, (objs_le_others_ok _ _ _ Hle Eo) in F. exact F.
+    - rewrite (merge_commit_writes_eq sk sched2 Hmerge Hcreate).
+      set (c2 := Cid t (h :: others) n2). cbn [c_table].
+      replace (ingest_writes sk sched2 t false ++ [PutProf t] ++ [PutCommit c2; SetRefLog r c2 true])
+        with ((ingest_writes sk sched2 t false ++ [PutProf t] ++ [PutCommit c2]) ++ [SetRefLog r c2 true])
+        by (rewrite <- !app_assoc; reflexivity).
+      apply tail_rerun; auto.
+      apply Forall_app; split; [apply ingest_is_obj; auto | repeat constructor].
+  Qed.
+
+End Rerun.
